@@ -1,7 +1,10 @@
 """Correspondence of the optimizer model with predicate.optimize, and the direct
 search of 'optimize preserves meaning' on the real code (used by C01–C03, C12,
 C13, C20)."""
+import ast
+import glob
 import itertools
+import os
 import sys
 
 from . import driver, lift, sx as S
@@ -27,7 +30,7 @@ DISCRIMINATORS = {
 }
 
 
-def py_optimize_text(sxp, share=None, judge=None, states=None):
+def py_optimize_text(sxp, share=None, judge=None, states=None, cover=None):
     """Run the real optimize on the lowered term; canonical text of the result, or RAISED <type>.
     `judge.before` records what the property needs of the original BEFORE optimize runs."""
     try:
@@ -40,6 +43,8 @@ def py_optimize_text(sxp, share=None, judge=None, states=None):
     try:
         if CALL_BUDGET is not None:
             o, _ = optimize_counted(p, CALL_BUDGET(S.size(sxp)))
+        elif cover is not None:
+            o = cover.call(lambda: optimize(p))
         else:
             o = optimize(p)
         if SNAPSHOT and snapshot(p) != snap:
@@ -54,6 +59,60 @@ def py_optimize_text(sxp, share=None, judge=None, states=None):
         return p, o, f"UNLIFTABLE {e}"
     except Exception as e:  # noqa: BLE001  (e.g. optimize returned None)
         return p, o, f"UNLIFTABLE {type(e).__name__}: {e}"
+
+
+class ArmCoverage:
+    """Which `return` statements (= rule arms) of predicate/optimizer/*.py, negate.py and implies.py executed while the
+    correspondence ran.  Bounds what the tie saw; an un-hit arm is reported, it is not an alarm by itself."""
+
+    def __init__(self):
+        import predicate
+
+        root = os.path.dirname(os.path.abspath(predicate.__file__))
+        files = sorted(glob.glob(os.path.join(root, "optimizer", "*.py"))) + [os.path.join(root, "negate.py"), os.path.join(root, "implies.py")]
+        self.root = root
+        self.arms = set()
+        for f in files:
+            try:
+                tree = ast.parse(open(f, encoding="utf-8").read())
+            except (OSError, SyntaxError):
+                continue
+            for node in ast.walk(tree):
+                if isinstance(node, ast.Return):
+                    self.arms.add((f, node.lineno))
+        self.files = {f for f, _ in self.arms}
+        self.hit = set()
+        self.cases = 0
+
+    def call(self, fn):
+        if sys.gettrace() is not None:  # a budget tracer is active: leave it alone
+            return fn()
+        hit, files = self.hit, self.files
+
+        def local(frame, event, arg):
+            if event == "line":
+                hit.add((frame.f_code.co_filename, frame.f_lineno))
+            return local
+
+        def tracer(frame, event, arg):
+            return local if frame.f_code.co_filename in files else None
+
+        self.cases += 1
+        sys.settrace(tracer)
+        try:
+            return fn()
+        finally:
+            sys.settrace(None)
+
+    def report(self):
+        hit = self.arms & self.hit
+        unhit = sorted(self.arms - self.hit)
+        return {"arms_total": len(self.arms), "arms_hit": len(hit), "cases_traced": self.cases,
+                "unhit": [f"{os.path.relpath(f, self.root)}:{ln}" for f, ln in unhit][:60]}
+
+
+COVER = None  # created on first use
+COVER_LIMIT = 2500  # cases per stream that run under the line tracer
 
 
 CALL_BUDGET = None  # C12: max optimize* invocations per call as a function of the tree size (None = unlimited)
@@ -238,10 +297,16 @@ def run(chk, name, cases, cfg, differs, share=False, restore_vars=True):
       quirk listed as an open known finding for this property."""
     cases = list(cases)
     known = {f["quirk"]: f["id"] for f in open_findings(chk.pid) if "quirk" in f}
+    global COVER
+    if COVER is None:
+        COVER = ArmCoverage()
     py, states = [], []
-    for s in cases:
+    stride = max(1, len(cases) // COVER_LIMIT)
+    for k, s in enumerate(cases):
         shared = {} if share else None
-        py.append(py_optimize_text(s, shared, differs, states))
+        py.append(py_optimize_text(s, shared, differs, states, cover=COVER if k % stride == 0 else None))
+    if COVER.cases:
+        chk.extra["arm_coverage"] = COVER.report()
     model = model_opt(cfg, cases)
     disagreements = []
     fired = {}
@@ -281,10 +346,13 @@ def run_objects(chk, name, items, cfg, judge):
     judge(p, o) returns None or a failure detail (the property on the real code)."""
     known = {f["quirk"]: f["id"] for f in open_findings(chk.pid) if "quirk" in f}
     texts, py = [], []
+    global COVER
+    if COVER is None:
+        COVER = ArmCoverage()
     for d, p in items:
         texts.append(S.show(lift.lift(p)))
         try:
-            o = optimize(p)
+            o = COVER.call(lambda: optimize(p))
             py.append((o, S.show(lift.lift(o))))
         except lift.Unliftable as e:
             py.append((None, f"UNLIFTABLE {e}"))
@@ -320,5 +388,7 @@ def run_objects(chk, name, items, cfg, judge):
                         break
             chk.add_failure(d, {"optimized": ptxt, **w, "model_trace": tr}, expl)
     chk.add_corr(name, len(items), dis)
+    if COVER.cases:
+        chk.extra["arm_coverage"] = COVER.report()
     chk.extra.setdefault("opt_stats", {})[name] = {"cases": len(items), "quirk_arms_fired": fired}
     return dis
